@@ -550,6 +550,12 @@ def _spec_call(self, sp, name, args, ctx):
         return VInt(args[0].z)
     if name == 'digest_size':
         return VInt(digest_size_term(args[0].z))
+    if name == 'pyeq':
+        # python equality of two records of a class whose == is coarser than structural equality (uninterpreted,
+        # reflexive): the relation `in` / list.remove use for those records
+        from .builtins_model import pyeq_fn
+        t = ty_of(args[0])
+        return VBool(z3.Or(same(args[0], args[1]), pyeq_fn(t)(to_z3(args[0], t), to_z3(args[1], t))))
     if name == 'hasher':
         # hasher(n): the digest constructor with index n (1 sha1, 2 sha256, 3 sha512)
         return VObj('hasher', args[0].z)
